@@ -60,14 +60,15 @@ Query(g, d, strat, ms) == /\ UNCHANGED <<prog, facts>>
                           /\ last' = [op |-> "query", gf |-> g[1], gv |-> g[2], depth |-> d, strat |-> strat, maxsol |-> ms,
                                       may |-> g \in May(prog, facts), must |-> MustProve(prog, facts, g, d, strat)]
 (* a query on the persistent engine (C11): must agree with a fresh engine on the same facts *)
-PQuery(g, d, strat) == /\ UNCHANGED <<prog, facts>>
-                       /\ last' = [op |-> "pquery", gf |-> g[1], gv |-> g[2], depth |-> d, strat |-> strat]
+PQuery(g, d, strat, neg, ms) ==
+                       /\ UNCHANGED <<prog, facts>>
+                       /\ last' = [op |-> "pquery", gf |-> g[1], gv |-> g[2], depth |-> d, strat |-> strat, neg |-> neg, maxsol |-> ms]
 
 Next == /\ nops' = nops + 1
         /\ \/ \E r \in RuleSet : AddRule(r)
            \/ \E f \in Fields, v \in Bools \cup {"abs"} : SetFact(f, v)
            \/ \E g \in Atoms, d \in Depths, s \in Strategies, ms \in MaxSols : Query(g, d, s, ms)
-           \/ \E g \in Atoms, d \in Depths, s \in Strategies : PQuery(g, d, s)
+           \/ \E g \in Atoms, d \in Depths, s \in Strategies : PQuery(g, d, s, FALSE, 1)
 Spec == Init /\ [][Next]_vars
 
 (* ---- C11 histories: a fixed program (one of three), then fact changes and queries on ONE engine ---- *)
@@ -80,7 +81,7 @@ P3 == << [body |-> [k |-> "or",  a |-> <<"A", "T">>, b |-> <<"B", "T">>], hf |->
 InitC11 == /\ prog = InitProg /\ facts = [f \in Fields |-> "abs"] /\ nops = 0 /\ last = [op |-> "init"]
 NextC11 == /\ nops' = nops + 1
            /\ \/ \E f \in Fields, v \in Bools \cup {"abs"} : SetFact(f, v)
-              \/ \E g \in Atoms, d \in Depths, s \in Strategies : PQuery(g, d, s)
+              \/ \E g \in Atoms, d \in Depths, s \in Strategies, ng \in BOOLEAN, ms \in MaxSols : PQuery(g, d, s, ng, ms)
 
 (* ---- sanity of the oracle itself (L1) ---- *)
 HeightImpliesMay == \A g \in Atoms, d \in Depths : g \in Within(prog, facts, d) => g \in May(prog, facts)
